@@ -53,7 +53,7 @@ Definition rf_get (pos : option Z) (f : rfile) (buf : list Z) : rfile * list Z :
   let L := rf_reclen f1 in
   let '(contents, st) :=
     if rf_eof (rf_recpos f1) L (rf_lof f1) then (zeros L, rf_stream f1)
-    else s_read L (rf_stream f1) in
+    else s_read L (s_seek (rf_get_seek (rf_recpos f1) L (s_pos (rf_stream f1))) (rf_stream f1)) in
   (mkRF st (rf_get_next (rf_recpos f1)) L, set_buffer L contents buf).
 
 (* RandomFile.put *)
